@@ -92,10 +92,10 @@ type c02World struct {
 	ctxs    []context.Context
 	// first mutation noticed (written by the token holder only)
 	mutName, mutWas, mutNow, mutBy, mutByKind string
-	mutOp                                      *c02Op
-	nMut                                       int
-	checks                                     int64
-	vals                                       map[string]*c02Val // generation-time registry (read-only during the run)
+	mutOp                                     *c02Op
+	nMut                                      int
+	checks                                    int64
+	vals                                      map[string]*c02Val // generation-time registry (read-only during the run)
 }
 
 //go:norace
